@@ -338,17 +338,22 @@ def pickle_rt(p):
         get = lambda v, st: st.heap[(id(new), '_mpf_')][1]
     else:
         mp = _ctx(53)
-        y = ob.mpf('y', 5)
+        y = ob.mpf('y', 5) if p.get('ikind', 'fin') == 'fin' else SPECIALS[p['ikind']]
         zo = mp.make_mpc((x, y))
         mid = ob.run(mp.mpc.__getstate__, [zo])
         if len(mid) != 1 or mid[0][1] != 0:
             raise Unsupported('getstate forked')
         new = object.__new__(mp.mpc)
         outs = ob.eng.call(mid[0][0], mp.mpc.__setstate__, [new, mid[0][2]], {})
-        get = lambda v, st: st.heap[(id(new), '_mpc_')][1][0]
+        get = lambda v, st: st.heap[(id(new), '_mpc_')][1]
 
     def good(val, st):
         r = get(val, st)
+        if entry == 'mpc':
+            # both parts come back
+            if not isinstance(r, tuple) or len(r) != 2 or any(not isinstance(q, tuple) or len(q) != 4 for q in r):
+                return False
+            return z3.And([zt(a) == zt(b) for q, w in zip(r, (x, y)) for a, b in zip(q, w)])
         if not isinstance(r, tuple) or len(r) != 4:
             return False
         return z3.And([zt(a) == zt(b) for a, b in zip(r, x)])
@@ -369,6 +374,13 @@ def pickle_rt_concrete(p, m):
         y = pickle.loads(pickle.dumps(xo, proto))
         if y._mpf_ != x or type(y) is not type(xo):
             return False, 'pickle protocol %d: %r -> %r' % (proto, x, y._mpf_)
+    if p.get('entry') == 'mpc':
+        yv = mk_tuple(m, 'y', 5) if p.get('ikind', 'fin') == 'fin' else SPECIALS[p['ikind']]
+        zo = mp.make_mpc((x, yv))
+        for proto in range(0, pickle.HIGHEST_PROTOCOL + 1):
+            w = pickle.loads(pickle.dumps(zo, proto))
+            if w._mpc_ != (x, yv) or type(w) is not type(zo):
+                return False, 'pickle protocol %d of an mpc: %r -> %r' % (proto, (x, yv), w._mpc_)
     mp.prec = p.get('cprec', 53)
     try:
         for nm, f in (('copy.copy', copy.copy), ('copy.deepcopy', copy.deepcopy)):
